@@ -399,8 +399,20 @@ func runC06(c *Check) {
 		okBlobs := false
 		if sb != nil {
 			hasMake, hasAdv, other := false, false, false
+			var alts []*Term
 			for _, a := range flattenPhi(sb) {
+				if a.Op == "extract" || a.Op == "call" {
+					// the list is built by a helper: what the helper returns
+					if ls := p.Alternatives(a, 2); len(ls) > 0 {
+						alts = append(alts, ls...)
+						continue
+					}
+				}
+				alts = append(alts, a)
+			}
+			for _, a := range alts {
 				switch {
+				case a.Op == "const" && a.Name == "nil": // the helper's error return: the caller returns before the first hand-off
 				case a.Op == "make" && strings.Contains(a.String(), "len("+itemsName+")"):
 					hasMake = true
 				case a.Op == "slice" && strings.Contains(a.Args[1].String(), ".SubmittedCount") && a.Args[2].Name == "_" && a.Args[0].Op == "phi":
@@ -1005,6 +1017,64 @@ func runC08(c *Check) {
 	ruleTimersRearmed(c, p, "C08-R4")
 	c.Doc("C08-R3", "EO: a submission loop passes over a tick without reading its pending list only if its own tracker reports empty (otherwise pending items never leave the count and the limit is never released).")
 	ruleLoopSkipsOnlyWhenOwnTrackerEmpty(c, p, "C08-R3")
+	ruleSubmissionBounded(c, p, "C08-R5")
+}
+
+// ruleSubmissionBounded (C08-R5): the submission loops call the DA layer synchronously, and the
+// loop's own context carries no deadline. The limit is released only when an attempt returns, so
+// every call that hands blobs to the DA layer inside the submitter gets a context derived, in the
+// submitter, from context.WithTimeout / WithDeadline: a DA endpoint that stops answering (no
+// error, just silence) ends that attempt instead of holding the loop — and the limit — for good.
+func ruleSubmissionBounded(c *Check, p *Prog, rule string) {
+	doneInst := map[string]bool{}
+	c.Doc(rule, "BO: every hand-off of blobs to the DA layer inside the submitter is given a context that the submitter derived with a deadline (context.WithTimeout / WithDeadline): a silent DA endpoint ends the attempt, it does not hold the submission loop and the pending limit for good.")
+	n := 0
+	for _, fn := range p.Funcs {
+		if !isSubmitterFn(fn) || fn.Blocks == nil {
+			continue
+		}
+		if fn.Origin() != nil && fn.Origin() != fn {
+			// one instantiation per item type: same body; keep the first by name
+		}
+		g := BuildECFG(p, fn, ExpandOpts{MaxDepth: 0})
+		for _, nd := range g.Select(func(nd *Node) bool {
+			cn := CallName(nd)
+			return cn == typesF("SubmitWithHelpers") || strings.HasSuffix(cn, "da.DA).SubmitWithOptions") || strings.HasSuffix(cn, "da.DA).Submit")
+		}) {
+			inst := genericName(fnShort(fn)) + " ⟂ DA hand-off has a deadline"
+			if doneInst[inst] {
+				continue // instantiations of the generic submitter share the body
+			}
+			doneInst[inst] = true
+			n++
+			cc := CallCommonOf(nd)
+			var ctxArg *Term
+			for i, a := range cc.Args {
+				if a.Type().String() == "context.Context" {
+					ctxArg = ArgTerm(nd, i)
+					if cc.IsInvoke() {
+						ctxArg = TermOf(a, nd.Ctx)
+					}
+					break
+				}
+			}
+			bounded := ctxArg != nil && p.DeepContains(ctxArg, func(t *Term) bool {
+				return t.IsCall("context.WithTimeout") || t.IsCall("context.WithDeadline")
+			}, 1)
+			if bounded {
+				c.OK(rule, inst, genericName(fnName(fn)), p.InstrPos(nd.In), "the context handed to the DA layer carries a deadline set by the submitter", true)
+			} else {
+				s := "<none>"
+				if ctxArg != nil {
+					s = trunc(ctxArg.String(), 80)
+				}
+				c.Bad(rule, inst, genericName(fnName(fn)), p.InstrPos(nd.In), "the DA layer is called with a context that has no deadline of the submitter's ("+s+"): if the DA endpoint stops answering, this call never returns, the submission loop is stuck, nothing leaves the pending count and block production is refused for good", nil)
+			}
+		}
+	}
+	if n == 0 {
+		c.Unk(rule, "anchor-count", "", "", "anchor lost: no hand-off to the DA layer found in the submitter")
+	}
 }
 
 // ---------------------------------------------------------------------------------------------
@@ -1236,79 +1306,186 @@ func runC07(c *Check) {
 func ruleStoredDAHeightsProvenance(c *Check, p *Prog) {
 	rule := "C07-R7"
 	prefix, _ := constString(p, rootPath+"/pkg/store", "RollkitHeightToDAHeightKey")
-	n := 0
+	prefix = strings.Trim(prefix, "\"")
+	// the key as far as it is known statically: Sprintf's format with the constant arguments filled in
+	keyPattern := func(k *Term) string {
+		k = k.unconv()
+		if !k.IsCall("fmt.Sprintf") || len(k.Args) == 0 || k.Args[0].unconv().Op != "const" {
+			return k.String()
+		}
+		f := strings.Trim(k.Args[0].unconv().Name, "\"")
+		args := k.Args[1:]
+		if len(args) == 1 && args[0].Op == "list" {
+			args = args[0].Args
+		}
+		var out strings.Builder
+		ai := 0
+		for i := 0; i < len(f); i++ {
+			if f[i] != '%' || i+1 >= len(f) {
+				out.WriteByte(f[i])
+				continue
+			}
+			i++
+			if f[i] == '%' {
+				out.WriteByte('%')
+				continue
+			}
+			if ai < len(args) {
+				a := args[ai].unconv()
+				ai++
+				if a.Op == "const" && strings.HasPrefix(a.Name, "\"") {
+					out.WriteString(strings.Trim(a.Name, "\""))
+					continue
+				}
+				if a.Op == "global" && strings.HasSuffix(a.Name, "RollkitHeightToDAHeightKey") {
+					out.WriteString(prefix)
+					continue
+				}
+				if a.Op == "const" && a.Name == "\""+prefix+"\"" {
+					out.WriteString(prefix)
+					continue
+				}
+			}
+			out.WriteString("%" + string(f[i]))
+		}
+		return out.String()
+	}
+	type cand struct {
+		root *ssa.Function
+		g    *Graph
+		sn   *Node
+		part string
+	}
+	best := map[string]cand{}
 	for _, fn := range p.Funcs {
 		pk := fnPkg(fn)
 		if pk == nil || pk.Pkg.Path() != rootPath+"/block" || fn.Parent() != nil {
 			continue
 		}
-		g := BuildECFG(p, fn, ExpandOpts{MaxDepth: 0})
-		sets := g.Select(func(x *Node) bool {
-			if CallName(x) != storeM("SetMetadata") {
-				return false
+		g := BuildECFG(p, fn, ownPkgOpts(rootPath+"/block", 2))
+		for _, sn := range g.Select(func(x *Node) bool { return CallName(x) == storeM("SetMetadata") }) {
+			k := ArgTerm(sn, 1)
+			if k == nil {
+				continue
 			}
-			k := ArgTerm(x, 1)
-			return k != nil && prefix != "" && strings.Contains(k.String(), strings.Trim(prefix, "\"")) || (k != nil && strings.Contains(k.String(), "RollkitHeightToDAHeightKey"))
-		})
-		if len(sets) == 0 {
-			continue
+			pat := keyPattern(k)
+			if prefix == "" || !(strings.Contains(pat, prefix) || strings.Contains(k.String(), "RollkitHeightToDAHeightKey")) {
+				continue
+			}
+			part := ""
+			switch {
+			case strings.HasSuffix(pat, "/h"):
+				part = "header"
+			case strings.HasSuffix(pat, "/d"):
+				part = "data"
+			default:
+				continue // the component is a parameter here: decided in the caller's graph
+			}
+			key := p.InstrPos(sn.In) + "|" + part
+			if b, ok := best[key]; !ok || sn.Ctx.Depth < b.sn.Ctx.Depth || (sn.Ctx.Depth == b.sn.Ctx.Depth && fnName(fn) < fnName(b.root)) {
+				best[key] = cand{fn, g, sn, part}
+			}
 		}
+	}
+	n := 0
+	for _, key := range sortedKeys(best) {
+		cd := best[key]
+		fn, g, sn, part := cd.root, cd.g, cd.sn, cd.part
 		c.NoteGraph(g)
-		puts := g.Select(func(x *Node) bool { return strings.HasSuffix(CallName(x), "Endian).PutUint64") })
 		fromCache := func(t *Term, cache string) bool {
 			return p.DeepContains(t, func(x *Term) bool {
 				return x.IsCall("Cache[_]).GetDAIncludedHeight") && len(x.Args) > 0 && x.Args[0].Op == "field" && x.Args[0].Name == cache
 			}, 2)
 		}
-		for _, sn := range sets {
-			key := ArgTerm(sn, 1).String()
-			part := ""
-			switch {
-			case strings.Contains(key, "/h"):
-				part = "header"
-			case strings.Contains(key, "/d"):
-				part = "data"
-			default:
+		n++
+		buf := CallCommonOf(sn).Args[len(CallCommonOf(sn).Args)-1]
+		inst := fnShort(fn) + " ⟂ stored " + part + " DA height ← " + part + " cache"
+		bad, any := "", false
+		for _, pn := range g.Select(func(x *Node) bool { return strings.HasSuffix(CallName(x), "Endian).PutUint64") }) {
+			if cc := CallCommonOf(pn); cc == nil || len(cc.Args) < 2 || cc.Args[len(cc.Args)-2] != buf || pn.Ctx != sn.Ctx {
 				continue
 			}
-			n++
-			buf := CallCommonOf(sn).Args[len(CallCommonOf(sn).Args)-1]
-			inst := fnShort(fn) + " ⟂ stored " + part + " DA height ← " + part + " cache"
-			bad, any := "", false
-			for _, pn := range puts {
-				if cc := CallCommonOf(pn); cc == nil || len(cc.Args) < 2 || cc.Args[len(cc.Args)-2] != buf {
-					continue
-				}
-				any = true
-				v := TermOf(CallCommonOf(pn).Args[len(CallCommonOf(pn).Args)-1], pn.Ctx)
-				okV := fromCache(v, part+"Cache")
-				if !okV && part == "data" && fromCache(v, "headerCache") {
-					// allowed only for a block without transactions
+			any = true
+			v := TermOf(CallCommonOf(pn).Args[len(CallCommonOf(pn).Args)-1], pn.Ctx)
+			okV := false
+			// every alternative of the value comes from the part's own mark; the header's mark is
+			// allowed for the data of a block without transactions only
+			alts := flattenPhi(v)
+			if len(alts) == 0 {
+				alts = []*Term{v}
+			}
+			okAll := true
+			for _, a := range alts {
+				switch {
+				case fromCache(a, part+"Cache"):
+				case part == "data" && fromCache(a, "headerCache"):
+					// the value is the header's mark: only on paths where the data is the empty-block commitment
+					emptyOnly := false
 					pp := pn
 					for _, f := range g.NecessaryEdges(func(x *Node) bool { return x == pp }) {
 						if f.Pol && f.Cond.IsCall("bytes.Equal") && strings.Contains(f.Cond.String(), "dataHashForEmptyTxs") {
-							okV = true
+							emptyOnly = true
 						}
 					}
-				}
-				if !okV {
-					bad = trunc(v.String(), 90) + " @" + p.InstrPos(pn.In)
+					// … or the value is a variable preset with the header's mark and overwritten,
+					// behind the non-empty test, with the data's own mark
+					if !emptyOnly && len(alts) > 1 {
+						for _, o := range alts {
+							if fromCache(o, "dataCache") {
+								emptyOnly = overwrittenUnless(g, v, "dataHashForEmptyTxs")
+							}
+						}
+					}
+					if !emptyOnly {
+						okAll = false
+					}
+				default:
+					okAll = false
 				}
 			}
-			switch {
-			case !any:
-				c.Unk(rule, inst, fnName(fn), p.InstrPos(sn.In), "anchor lost: the stored bytes are not filled by PutUint64 into the same buffer")
-			case bad == "":
-				c.OK(rule, inst, fnName(fn), p.InstrPos(sn.In), "every value stored for the "+part+" comes from the "+part+"'s own DA-inclusion mark", true)
-			default:
-				c.Bad(rule, inst, fnName(fn), p.InstrPos(sn.In), "the DA height stored for the "+part+" of a block is "+bad+", not the height recorded for that "+part+": the recorded height is one at which its blob is not", nil)
+			okV = okAll
+			if !okV {
+				bad = trunc(v.String(), 90) + " @" + p.InstrPos(pn.In)
 			}
+		}
+		switch {
+		case !any:
+			c.Unk(rule, inst, fnName(fn), p.InstrPos(sn.In), "anchor lost: the stored bytes are not filled by PutUint64 into the same buffer")
+		case bad == "":
+			c.OK(rule, inst, fnName(fn), p.InstrPos(sn.In), "every value stored for the "+part+" comes from the "+part+"'s own DA-inclusion mark", true)
+		default:
+			c.Bad(rule, inst, fnName(fn), p.InstrPos(sn.In), "the DA height stored for the "+part+" of a block is "+bad+", not the height recorded for that "+part+": the recorded height is one at which its blob is not", nil)
 		}
 	}
 	if n == 0 {
 		c.Unk(rule, "stored-DA-heights", "", "", "anchor lost: no function stores the per-block DA heights")
 	}
 	c.MinInstances(rule, 2)
+}
+
+// overwrittenUnless: v is a phi of two alternatives chosen by a test that mentions marker: the
+// alternative that does not come through the marker-is-equal edge replaces the preset value.
+func overwrittenUnless(g *Graph, v *Term, marker string) bool {
+	ph, ok := v.V.(*ssa.Phi)
+	if !ok {
+		return false
+	}
+	blk := ph.Block()
+	for _, pr := range blk.Preds {
+		if ifi, ok := pr.Instrs[len(pr.Instrs)-1].(*ssa.If); ok {
+			if strings.Contains(TermOf(ifi.Cond, &Ctx{Fn: blk.Parent()}).String(), marker) {
+				return true
+			}
+		}
+		for _, pp := range pr.Preds {
+			if ifi, ok := pp.Instrs[len(pp.Instrs)-1].(*ssa.If); ok {
+				if strings.Contains(TermOf(ifi.Cond, &Ctx{Fn: blk.Parent()}).String(), marker) {
+					return true
+				}
+			}
+		}
+	}
+	return false
 }
 
 // ruleLoopSkipsOnlyWhenOwnTrackerEmpty (C06-R8 / C08-R3): in a submission loop a tick may be
